@@ -99,6 +99,16 @@ func fatal2(format string, args ...interface{}) {
 }
 
 func main() {
+	// the tree this binary belongs to: VERIF_ROOT, else the parent of the directory the
+	// executable lives in (so that a snapshot of /verif elsewhere works on itself)
+	if os.Getenv("VERIF_ROOT") == "" {
+		if exe, err := os.Executable(); err == nil {
+			cand := filepath.Dir(filepath.Dir(exe))
+			if st, err := os.Stat(filepath.Join(cand, "sim", "go.mod")); err == nil && !st.IsDir() {
+				root = cand
+			}
+		}
+	}
 	simDir = filepath.Join(root, "sim")
 	binDir = filepath.Join(root, "bin")
 	workDir = filepath.Join(root, ".work")
